@@ -2168,7 +2168,7 @@ def poincare_to_halfspace(points):
     v = points[..., 1:]
     x2 = utils.normsq(v)
 
-    halfspace_coords = np.zeros_like(points)
+    halfspace_coords = utils.zeros(points.shape, like=points, integer_type=False)
     denom = (x2 + (y - 1)*(y - 1))
 
     with np.errstate(divide="ignore", invalid="ignore"):
@@ -2182,7 +2182,7 @@ def halfspace_to_poincare(points):
     v = points[..., :-1]
     x2 = utils.normsq(v)
 
-    poincare_coords = np.zeros_like(points)
+    poincare_coords = utils.zeros(points.shape, like=points, integer_type=False)
     denom = (x2 + (y + 1)*(y + 1))
     poincare_coords[..., 1:] = (-2 * v) / denom[..., np.newaxis]
     poincare_coords[..., 0] = (x2 + y * y - 1) / denom
